@@ -966,6 +966,13 @@ class ShapeLifter(Lifter):
                     except Unsupported:
                         return TOP
                 return TOP
+        # unknown callee: its arguments are still evaluated (index
+        # expressions inside them can carry layout events)
+        for a in list(n.args) + [k.value for k in n.keywords]:
+            try:
+                ev(a)
+            except Unsupported:
+                pass
         return TOP
 
 
